@@ -169,7 +169,7 @@ CLAIMED = {
         design_ref="6 C15"),
     "C16": dict(
         category="proof",
-        text=("Two clauses are decided: (1) no panic of each sub-parser on ARBITRARY input bytes of fixed small length with arbitrary "
+        text=("Three clauses are decided: (1) no panic of each sub-parser on ARBITRARY input bytes of fixed small length with arbitrary "
               "in-range parameters (utf8_code, block_size_code + block_size(), sample_rate_code for every tag, subframe_header, constant, "
               "verbatim, quantized_parameters, stream_info, metadata_block, frame_header with and without CRC, u_to_i for every width); "
               "(2) frame_header(true) returns Ok only if the stored CRC-8 equals the checksum of the consumed bytes; plus the residual "
@@ -180,8 +180,8 @@ CLAIMED = {
         note=("Kani units bounded in input length (8 header bytes, 34 STREAMINFO bytes, ...), complete in byte values.  Not decided: 'an altered "
               "frame is never accepted with different audio' beyond 'CRC-16 enforced' (a probabilistic fact about 16-bit coincidences), and "
               "the composition subframe -> fixed_lpc/lpc -> residual inside parser::frame, which enters the Verus unit as an assumed callee "
-              "contract; the FIXED / LPC recognisers themselves cannot panic on any type tag (Verus parser_subframes); "
-              "contract (intractable for Kani; `impl FnMut`-returning parsers cannot be stubbed)."),
+              "contract (intractable for Kani; `impl FnMut`-returning parsers cannot be stubbed); the FIXED / LPC recognisers themselves "
+              "cannot panic on any type tag (Verus parser_subframes)."),
         technique=KANI + " + " + VERUS,
         design_ref="6 C16"),
     "C17": dict(
